@@ -397,3 +397,77 @@ func (c *Ctx) rulesC06x(a *coreAnchors) {
 	}
 	c.floor("C06.pair", 8)
 }
+
+// rulesC06reuse: a registration hands out the channel of an existing binding
+// only to a subscriber with the same context.
+func (c *Ctx) rulesC06reuse() {
+	c.rule("C06.reuse", "a When*/WhenArgs registration that returns the channel of an already registered binding does so only under a guard comparing that binding's context with the caller's ctx: a channel shared across contexts closes when somebody else's context ends (spurious close) or ignores the caller's own context (never closes)")
+	n := 0
+	for _, name := range []string{"When", "WhenNot", "WhenTime", "WhenArgs", "WhenQuery", "WhenTicks", "WhenQueue", "WhenQueueEnds"} {
+		f := c.fnOpt(pm + ":Subscriptions." + name)
+		if f == nil {
+			continue
+		}
+		var ctxParam ssa.Value
+		for _, p := range f.Params {
+			if isContextType(p.Type()) {
+				ctxParam = p
+			}
+		}
+		if ctxParam == nil {
+			continue
+		}
+		for _, r := range returnsOf(f) {
+			for _, rv := range retVals(r) {
+				for {
+					if ct, ok := rv.(*ssa.ChangeType); ok {
+						rv = ct.X
+						continue
+					}
+					break
+				}
+				fld := loadOfField(rv)
+				if fld == nil {
+					continue
+				}
+				if _, isCh := fld.Type().Underlying().(*types.Chan); !isCh {
+					continue
+				}
+				// the channel of a binding struct (not of the receiver, e.g. sm.Closed)
+				ld := rv.(*ssa.UnOp)
+				fa, ok := ld.X.(*ssa.FieldAddr)
+				if !ok {
+					continue
+				}
+				if nt := namedOf(fa.X.Type()); nt == nil || nt.Obj().Name() == "Subscriptions" {
+					continue
+				}
+				n++
+				good := false
+				for _, g := range guardsOf(r.Block()) {
+					bo, ok := g.Cond.(*ssa.BinOp)
+					if !ok || bo.Op != token.EQL || !g.Pol {
+						continue
+					}
+					for _, pr := range [][2]ssa.Value{{bo.X, bo.Y}, {bo.Y, bo.X}} {
+						cf := loadOfField(pr[0])
+						if cf == nil || !isContextType(cf.Type()) || pr[1] != ctxParam {
+							continue
+						}
+						// the context field of the same binding value
+						if l2, ok := pr[0].(*ssa.UnOp); ok {
+							if fa2, ok := l2.X.(*ssa.FieldAddr); ok && fa2.X == fa.X {
+								good = true
+							}
+						}
+					}
+				}
+				c.check(good, "C06.reuse", "Subscriptions."+name+" reuses a binding's channel only for the same ctx", r.Pos(),
+					"the channel of an existing binding is returned without comparing its context with the caller's")
+			}
+		}
+	}
+	if n < 4 {
+		c.undecided(fmt.Sprintf("C06.reuse: only %d channel-reuse returns found (When, WhenNot, WhenTime, WhenArgs expected)", n))
+	}
+}
